@@ -4,6 +4,7 @@ here="$(cd "$(dirname "$0")/.." && pwd)"; cd "$here" || exit 3
 for d in seeded/*/; do
     sid="$(basename "$d")"; prop="$(/venv/bin/python -c "import json;print(json.load(open('$d/meta.json'))['property'])")"
     if grep -q '"status": "neutralised"' "$d/meta.json"; then echo "$sid $prop NEUTRALISED (see meta.json)"; continue; fi
+    if grep -q '"status": "out_of_domain"' "$d/meta.json"; then echo "$sid $prop OUT-OF-DOMAIN (see meta.json)"; continue; fi
     out="$(SHOW=2 tools/mutation_run.sh "$d/patch.diff" "$prop" 2>&1)"
     verdict="$(echo "$out" | tail -1 | cut -d' ' -f1)"
     mech="$(echo "$out" | grep -m1 'mechanism:' | sed 's/^ *mechanism: *//' | cut -c1-120)"
